@@ -195,6 +195,9 @@ var getValRe = regexp.MustCompile(`\(\s*([A-Za-z0-9_.$!@]+)\s+(true|false)\s*\)`
 // Returns the set of candidate indexes shown falsifiable (in one model) or nil
 // if all hold. ok=false when the solver could not decide (then all are dropped).
 func (x *Exec) falsified(st *State, terms []string, tag string) (bad map[int]bool, decided bool) {
+	if x.inferQueries > 100 {
+		return nil, false // budget of this function exhausted: remaining candidates are dropped
+	}
 	names := make([]string, len(terms))
 	var defs []string
 	for i, t := range terms {
@@ -286,6 +289,9 @@ func (x *Exec) houdini(fr *Frame, l *loopRec, entry *State, ms *ModSet, given []
 	cands := x.genCandidates(fr, l, entry, ms)
 	if len(cands) == 0 {
 		return nil
+	}
+	if len(cands) > 60 {
+		cands = cands[:60]
 	}
 	// 1. entry filter
 	for {
@@ -413,5 +419,5 @@ func (x *Exec) houdini(fr *Frame, l *loopRec, entry *State, ms *ModSet, given []
 // inference queries are bounded by a resource limit, not by time, so that the set of
 // inferred invariants does not depend on machine load
 var inferSolver = solverSpec{"z3-new", func(f string, t float64) []string {
-	return []string{"z3-new", "rlimit=30000000", fmt.Sprintf("-T:%d", int(t)+1), f}
+	return []string{"z3-new", "rlimit=2500000", fmt.Sprintf("-T:%d", int(t)+1), f}
 }}
